@@ -47,7 +47,7 @@ pub fn scenarios(quick: bool) -> Vec<Scenario> {
             for mode in [0o600u32, 0o644, 0o666, 0o777, 0o1777, 0o2660, 0o4711, 0o7777, 0o000] {
                 for umask in [0u32, 0o022, 0o077] {
                     for pos in ["sole", "tree"] {
-                        for dest in ["fresh", "file", "fifo"] {
+                        for dest in ["fresh", "file", "fifo", "same"] {
                             for nc in [false, true] {
                                 if quick && nc && dest == "fresh" && mode != 0o644 {
                                     continue;
@@ -62,6 +62,8 @@ pub fn scenarios(quick: bool) -> Vec<Scenario> {
                                     match dest {
                                         "file" => tree.push(Entry::file("out", "existing file").mtime(1_200_000_000, 1)),
                                         "fifo" => tree.push(Entry::new("out", Kind::Fifo).mode(0o640)),
+                                        // an earlier copy made under another umask: same kind, device and mode as the source
+                                        "same" => tree.push(Entry::new("out", k.clone()).mode(mode)),
                                         _ => {}
                                     }
                                     args.extend_from_slice(&["node", "out"]);
@@ -74,6 +76,7 @@ pub fn scenarios(quick: bool) -> Vec<Scenario> {
                                         tree.push(Entry::dir("dst"));
                                         match dest {
                                             "file" => tree.push(Entry::file("dst/node", "existing file").mtime(1_200_000_000, 1)),
+                                            "same" => tree.push(Entry::new("dst/node", k.clone()).mode(mode)),
                                             _ => tree.push(Entry::new("dst/node", Kind::Fifo).mode(0o640)),
                                         }
                                         args.extend_from_slice(&["src/reg", "src/node", "dst"]);
